@@ -1,0 +1,52 @@
+//go:build verif
+
+package message
+
+// Accessors used only by the out-of-tree verification harness (/verif); compiled with -tags verif.
+
+// VerifNodes returns the number of live trie nodes, the root included.
+func (t *Trie) VerifNodes() int {
+	t.RLock()
+	defer t.RUnlock()
+	var walk func(n *node) int
+	walk = func(n *node) int {
+		c := 1
+		for _, ch := range n.children {
+			c += walk(ch)
+		}
+		return c
+	}
+	return walk(t.root)
+}
+
+// VerifEntry is one (ssid, subscriber) pair held by the trie.
+type VerifEntry struct {
+	Ssid Ssid
+	ID   string
+	Type SubscriberType
+}
+
+// VerifEntries lists every (ssid, subscriber) pair held by the trie.
+func (t *Trie) VerifEntries() []VerifEntry {
+	t.RLock()
+	defer t.RUnlock()
+	var out []VerifEntry
+	var walk func(n *node, path Ssid)
+	walk = func(n *node, path Ssid) {
+		for _, s := range n.subs {
+			out = append(out, VerifEntry{Ssid: append(Ssid{}, path...), ID: s.ID(), Type: s.Type()})
+		}
+		for w, ch := range n.children {
+			walk(ch, append(append(Ssid{}, path...), w))
+		}
+	}
+	walk(t.root, nil)
+	return out
+}
+
+// VerifLen returns the number of counters.
+func (s *Counters) VerifLen() int {
+	s.Lock()
+	defer s.Unlock()
+	return len(s.m)
+}
